@@ -227,8 +227,14 @@ class StingyConfigurator(pg.All):
     def __init__(self, *propositions: typing.List[typing.Union[puan.Proposition, str]], id: str = None):
         super().__init__(*propositions, variable=id)
 
+    def __getstate__(self):
+        # cached results belong to this instance only and are not part of its definition
+        state = self.__dict__.copy()
+        state.pop("_ge_polyhedron", None)
+        state.pop("_leafs", None)
+        return state
+
     @property
-    @functools.lru_cache
     def ge_polyhedron(self) -> pnd.ge_polyhedron_config:
 
         """
@@ -238,13 +244,15 @@ class StingyConfigurator(pg.All):
             -------
                 out : :class:`puan.ndarray.ge_polyhedron_config`
         """
-        ge_polyhedron = self.to_ge_polyhedron(True)
-        return pnd.ge_polyhedron_config(
-            ge_polyhedron, 
-            default_prio_vector=ge_polyhedron.A.construct(self.default_prios),
-            variables=ge_polyhedron.variables, 
-            index=ge_polyhedron.index, 
-        )
+        if "_ge_polyhedron" not in self.__dict__:
+            ge_polyhedron = self.to_ge_polyhedron(True)
+            self.__dict__["_ge_polyhedron"] = pnd.ge_polyhedron_config(
+                ge_polyhedron, 
+                default_prio_vector=ge_polyhedron.A.construct(self.default_prios),
+                variables=ge_polyhedron.variables, 
+                index=ge_polyhedron.index, 
+            )
+        return self.__dict__["_ge_polyhedron"]
 
     @property
     def default_prios(self) -> typing.Dict[str, int]:
@@ -267,7 +275,6 @@ class StingyConfigurator(pg.All):
             )
         )
 
-    @functools.lru_cache
     def leafs(self) -> typing.List[puan.variable]:
 
         """
@@ -277,17 +284,19 @@ class StingyConfigurator(pg.All):
             -------
                 out : List[:class:`variable<puan.variable>`]
         """
-        flatten = self.flatten()
-        return sorted(
-            set(
-                itertools.chain(
-                    filter(
-                        lambda x: type(x) == puan.variable,
-                        flatten
+        if "_leafs" not in self.__dict__:
+            flatten = self.flatten()
+            self.__dict__["_leafs"] = sorted(
+                set(
+                    itertools.chain(
+                        filter(
+                            lambda x: type(x) == puan.variable,
+                            flatten
+                        ),
                     ),
-                ),
+                )
             )
-        )
+        return list(self.__dict__["_leafs"])
     
 
     def select(self, *prios: typing.List[typing.Dict[str, int]], solver: typing.Callable = None, only_leafs: bool = False) -> itertools.starmap:
